@@ -187,7 +187,12 @@ func clientOffers(i *IPC, w http.ResponseWriter, r *http.Request) {
 			w.WriteHeader(http.StatusGatewayTimeout)
 			return
 		default:
-			panic("unknown error")
+			// Any other error the versioned protocol reports in its JSON
+			// response (e.g. an invalid Snowflake-NAT-Type header). The legacy
+			// protocol has no way to carry the message; it is a bad request.
+			log.Printf("legacy client request rejected: %s", resp.Error)
+			w.WriteHeader(http.StatusBadRequest)
+			return
 		}
 	}
 
